@@ -82,7 +82,7 @@ func init() {
 			vzs := alpha.Zedge
 			ozs := []int64{0, 1, 2, 3, 4, 5, 7, 8, 9, 12, 20, 35}
 			allCellsUpTo := int64(6)
-			bzs := []int64{0, 1, 2, 3, 4, 5, 6, 12, 20}
+			bzs := []int64{0, 1, 2, 3, 4, 5, 6, 12, 20, 30, 35}
 			sharded := false
 			if tier == "thorough" {
 				vzs = alpha.Zall
@@ -173,7 +173,7 @@ func init() {
 						}
 					}},
 				{Name: "bits-to-voxels", Serial: !sharded, ShardDepth: 2, Bounds: engine.Bounds{InputDev: -1},
-					Rule: "full product bit zoom (0..6, thorough 0..9: all cells; above: edge cells of zooms 12, 20, thorough also 30, 35) x cell x output vertical zoom x range: the returned vertical indices form a contiguous run covering the cell's altitude interval and not exceeding it by more than one index; non-trivial = distinct cases whose run has >= 2 indices",
+					Rule: "full product bit zoom (0..6, thorough 0..9: all cells; above: edge cells of zooms 12, 20, 30, 35 — at the fine ones a short run sits at output indices beyond 2^31) x cell x output vertical zoom x range: the returned vertical indices form a contiguous run covering the cell's altitude interval and not exceeding it by more than one index; non-trivial = distinct cases whose run has >= 2 indices",
 					Body: func(c *engine.Ctx) {
 						bz := bzs[c.In("bitZoom", len(bzs))]
 						n := int64(1) << uint(bz)
